@@ -12,11 +12,12 @@ assert os.path.getsize(f"{wt}/patch.diff") > 0, "empty patch"
 base = subprocess.run(["/venv/bin/python", "/verif/tools/baseline.py", wt], capture_output=True, text=True)
 print(base.stdout.strip().splitlines()[0])
 with_change = sh("/venv/bin/python demo.py").returncode
-sh("git stash -q")
+# (never `git stash`: the stash is shared by every worktree of the repository)
+assert sh("git apply -R patch.diff").returncode == 0, "cannot revert patch"
 try:
     without = sh("/venv/bin/python demo.py").returncode
 finally:
-    sh("git stash pop -q")
+    assert sh("git apply patch.diff").returncode == 0, "cannot re-apply patch"
 print("demo: with change exit", with_change, "| without exit", without)
 ok = base.returncode == 0 and with_change != 0 and without == 0
 if not ok:
